@@ -134,6 +134,11 @@ theorem C12_priority_exact (p : Nat) (hp : p ≤ 2) : p &&& 3 = p := by
   | 1, _ => rfl
   | 2, _ => rfl
 
+/-- every writer that addresses a process id or an alias of a particular incarnation compares the
+    incarnation with the peer's before it touches the buffer (refused ⇒ nothing written) -/
+theorem C12_incarnation_guarded :
+    ∀ k ∈ wireKinds, k.typ ∈ [101, 104, 107, 121, 124, 129, 130, 181, 184] → k.incarnation = true := by decide
+
 /-- the payload handed to the decoder is always a suffix of the frame (nothing foreign is decoded) -/
 theorem C12_payload_is_suffix (k : Kind) (f : List UInt8) (p : Parsed) (h : parse k f = .ok p) :
     ∃ pre, f = pre ++ p.payload :=
